@@ -119,7 +119,7 @@ func c04RunHistory(ops []c04Op) (fail *c06Fail, outcomes int) {
 		tag := nextTag
 		nextTag++
 		pkt := c04InsertPacket(pktKind, k.id)
-		err := q.Insert(fmt.Sprintf("s%d", k.s), pkt, c04T0.Add(time.Duration(deadline)*time.Millisecond), func(expired bool, stored, received packet.Packet) {
+		err := q.Insert(c04SessName(k.s), pkt, c04T0.Add(time.Duration(deadline)*time.Millisecond), func(expired bool, stored, received packet.Packet) {
 			events = append(events, c04Outcome{tag, expired})
 			fired[tag] = append(fired[tag], c04Outcome{tag, expired})
 			if stored != pkt && cbErr == nil {
@@ -171,7 +171,7 @@ func c04RunHistory(ops []c04Op) (fail *c06Fail, outcomes int) {
 		case 'A':
 			k := key{op.Sess, op.ID}
 			e, present := live[k]
-			err := q.Ack(fmt.Sprintf("s%d", op.Sess), c04AckPacket(op.PktKind, op.ID))
+			err := q.Ack(c04SessName(op.Sess), c04AckPacket(op.PktKind, op.ID))
 			got := events[before:]
 			if present && e.expect == op.PktKind {
 				if len(got) != 1 || got[0].tag != e.tag || got[0].expired {
@@ -250,6 +250,12 @@ func c04RunHistory(ops []c04Op) (fail *c06Fail, outcomes int) {
 	return nil, len(events)
 }
 
+// session names and identifiers are chosen so that name+id coincide across sessions
+// ("s1"+"23", "s12"+"3", "s"+"123"): entries of different sessions must stay independent anyway
+func c04SessName(i int) string { return []string{"s1", "s12", "s"}[i%3] }
+
+var c04IDs = []int32{3, 23, 123, 1, 2}
+
 func c04GenHistory(rg *rand.Rand) []c04Op {
 	n := 5 + rg.Intn(36)
 	sessions := 2 + rg.Intn(2)
@@ -260,10 +266,10 @@ func c04GenHistory(rg *rand.Rand) []c04Op {
 		r := rg.Intn(100)
 		switch {
 		case r < 45:
-			ops = append(ops, c04Op{Kind: 'I', Sess: rg.Intn(sessions), ID: int32(1 + rg.Intn(4)), PktKind: rg.Intn(4),
+			ops = append(ops, c04Op{Kind: 'I', Sess: rg.Intn(sessions), ID: c04IDs[rg.Intn(4)], PktKind: rg.Intn(4),
 				AtMs: now + c04Offsets[rg.Intn(len(c04Offsets))] - 1000*rg.Intn(2), Rearm: rg.Intn(5) == 0})
 		case r < 75:
-			ops = append(ops, c04Op{Kind: 'A', Sess: rg.Intn(sessions), ID: int32(1 + rg.Intn(5)), PktKind: rg.Intn(4)})
+			ops = append(ops, c04Op{Kind: 'A', Sess: rg.Intn(sessions), ID: c04IDs[rg.Intn(5)], PktKind: rg.Intn(4)})
 		default:
 			if monotonic {
 				now += c04Offsets[rg.Intn(len(c04Offsets))]
